@@ -12,7 +12,7 @@ RESERVED = {"new", "dispatch", "contract", "querier", "instantiate", "type", "se
             "do", "box", "dyn", "async", "await", "try", "yield", "macro", "final", "override", "priv", "virtual", "abstract",
             "become", "typeof", "unsized", "static", "const", "where", "return", "break", "continue", "true", "false", "extern"}
 
-SCALARS = ["u8", "u32", "u64", "i32", "i64", "bool", "String", "Uint128", "Addr", "Empty"]
+SCALARS = ["u8", "u32", "u64", "i32", "i64", "bool", "String", "Uint128", "Addr", "Empty", "Binary"]
 
 
 def rand_vty(rng, depth=0):
@@ -56,6 +56,9 @@ def rand_value(rng, ty):
         return str(rng.choice([0, 1, 2 ** 128 - 1, rng.randrange(2 ** 100)]))
     if n == "Empty":
         return {}
+    if n == "Binary":
+        import base64
+        return base64.b64encode(rng.choice([b"", b"a", b"hello", b"\x00\xff\x10", bytes(rng.randrange(256) for _ in range(rng.randrange(9)))])).decode()
     raise ValueError(n)
 
 
@@ -78,6 +81,9 @@ def wrong_value(rng, ty):
         return rng.choice(["5", '"-1"', '"abc"', '""', "null", '"340282366920938463463374607431768211456"'])
     if n == "Empty":
         return rng.choice(["[]", "null", "5", '"x"'])
+    if n == "Binary":
+        # (cosmwasm's engine is indifferent to padding and checks trailing bits: only clearly invalid texts are generated)
+        return rng.choice(["5", "null", "[]", '"!!!!"', '"ab!d"', '"a b="', "{}"])
     if n == "Option":
         inner = ty["p"][0][1][0]
         for _ in range(5):
@@ -151,7 +157,10 @@ DATA_MODES = {
 }
 
 
-def data_arg(rng, mode):
+INNER_TYPES = [P("String"), P("u32"), P("Uint128"), P("Vec", P("u8")), P("bool"), T(P("u8"), P("String")), P("Option", P("u32"))]
+
+
+def data_arg(rng, mode, inner_idx=None):
     d = dict(DATA_MODES[mode])
     if mode == "raw":
         ty = P("Binary")
@@ -162,13 +171,14 @@ def data_arg(rng, mode):
     elif mode == "inst_opt":
         ty = P("Option", P("MsgInstantiateContractResponse"))
     else:
-        inner = rng.choice([P("String"), P("u32"), P("Uint128"), P("Vec", P("u8")), P("bool"), T(P("u8"), P("String"))])
+        # (a nullable payload type is still a *mandatory* parameter unless `opt` is written)
+        inner = rng.choice(INNER_TYPES) if inner_idx is None else INNER_TYPES[inner_idx % len(INNER_TYPES)]
         ty = inner if mode == "typed" else P("Option", inner)
         d["inner"] = inner
     return {"name": "data", "ty": ty, "data": {k: bool(v) for k, v in d.items() if k != "inner"}, "data_mode": mode, "inner": d.get("inner")}
 
 
-def gen_replies(rng, ce, taken=()):
+def gen_replies(rng, ce, taken=(), idx=None):
     """reply handlers: per handler name a pattern of methods covering success / error / always"""
     used = set()
     methods = []
@@ -184,12 +194,24 @@ def gen_replies(rng, ce, taken=()):
     for h in hnames:
         pattern = rng.choice(["S", "E", "SE", "ES", "A", "S", "SE"])
         psig = rng.choice(["raw", "one", "two", "three"])
+        one_ty = None
+        if idx is not None:
+            # compiled corpora walk through the payload shapes, and through every scalar type for the single typed value
+            k2 = idx * 3 + hnames.index(h)
+            psig = ["one", "raw", "two", "one", "three"][k2 % 5]
+            one_ty = P(SCALARS[(k2 // 5) % len(SCALARS)]) if k2 % 5 == 0 else None
         if psig == "raw":
             payload = [{"name": "pl", "ty": P("Binary"), "payload_raw": True}]
         else:
             n = {"one": 1, "two": 2, "three": 3}[psig]
-            payload = [{"name": "p%d" % i, "ty": rand_vty(rng, 1)} for i in range(n)]
+            payload = [{"name": "p%d" % i, "ty": one_ty or rand_vty(rng, 1)} for i in range(n)]
         mode = rng.choice(list(DATA_MODES))
+        inner_idx = None
+        if idx is not None:
+            # compiled corpora walk through every (data mode, payload type) pair instead of leaving the coverage to chance
+            kk = idx * 3 + hnames.index(h)
+            mode = list(DATA_MODES)[kk % len(DATA_MODES)]
+            inner_idx = kk // len(DATA_MODES)
         for k, on in enumerate(pattern):
             on_word = {"S": "success", "E": "error", "A": "always"}[on]
             fn = h if (len(pattern) == 1 and rng.random() < 0.5) else "on_%s_%s" % (h, on_word)
@@ -197,7 +219,7 @@ def gen_replies(rng, ce, taken=()):
             role = "none"
             if on == "S":
                 if mode != "none":
-                    args.append(data_arg(rng, mode))
+                    args.append(data_arg(rng, mode, inner_idx))
                     role = mode
             elif on == "E":
                 args.append({"name": "error", "ty": P("String")})
@@ -300,7 +322,7 @@ def gen_program(rng, idx, wild_p=0.25, n_ifaces=None, with_ce=None, replies_p=0.
         if casing.wire_name(src["name"]) not in used_wire["sudo"]:
             pass  # two methods cannot share a Rust name inside one impl; cross-kind sharing is done via interfaces above
     if rng.random() < replies_p:
-        cms += gen_replies(rng, ce, taken={m["name"] for m in cms})
+        cms += gen_replies(rng, ce, taken={m["name"] for m in cms}, idx=idx)
     # a handler may name the context type of another kind with the same shape (the macro only looks at the attribute)
     for m in cms:
         if m["msg"]["kind"] == "instantiate" and rng.random() < 0.3:
@@ -389,7 +411,11 @@ def handler_body(part, m):
     if kind != "query":
         lines.append('ctx.deps.storage.set(b"ran", b"%s");' % hid)
         lines.append('ctx.deps.storage.set(b"last", show_pairs(&attrs).as_bytes());')
-        lines.append("Ok(resp_of(attrs))")
+        if kind == "migrate":
+            # migrate handlers answer with data: what the chain / the proxies do with a response's data is then observable
+            lines.append('Ok(resp_of(attrs).set_data(b"m:%s".to_vec()))' % hid)
+        else:
+            lines.append("Ok(resp_of(attrs))")
     else:
         lines.append("Ok(%s::from(attrs))" % BODY_TYPES[m["ret_kind"]])
     return " ".join(lines)
@@ -639,7 +665,7 @@ def render_mt_ops(prog):
     A("                            enum St { L(String), A(Option<String>), F(Vec<Coin>), S(Option<Vec<u8>>) }")
     A("                            let sts: Vec<St> = f[3].split('/').filter(|x| !x.is_empty() && *x != \"-\").map(|x| { let (k, v) = x.split_once('=').unwrap_or((x, \"\")); match k {")
     A('                                "l" => St::L(String::from_utf8_lossy(&unhex(v)).to_string()),')
-    A('                                "a" => St::A(if v == "-" { None } else { Some(acct(v).to_string()) }),')
+    A('                                "a" => St::A(if v == "-" { None } else if v == "~" { Some(String::new()) } else { Some(acct(v).to_string()) }),')
     A('                                "f" => St::F(coins_of(v)),')
     A('                                _ => St::S(if v == "-" { None } else { Some(unhex(v)) }),')
     A("                            } }).collect();")
@@ -654,7 +680,7 @@ def render_mt_ops(prog):
     A('                        ("mtr", "inst") => {')
     A('                            let code_id = match raw_codes.get(f[1].parse::<usize>().unwrap_or(usize::MAX)) { Some(c) => *c, None => return "no-code".into() };')
     A("                            let sender = acct(f[2]);")
-    A('                            let admin = if f[5] == "-" { None } else { Some(acct(f[5]).to_string()) };')
+    A('                            let admin = if f[5] == "-" { None } else if f[5] == "~" { Some(String::new()) } else { Some(acct(f[5]).to_string()) };')
     A("                            let label = String::from_utf8_lossy(&unhex(f[4])).to_string();")
     A("                            let body = Binary::from(unhex(f[7]));")
     A('                            let msg = if f[6] == "-" { WasmMsg::Instantiate { admin, code_id, msg: body, funds: coins_of(f[3]), label } }')
